@@ -1,5 +1,6 @@
 import FrappyDrive.Util
 import FrappyModel.Spec.C15
+import FrappyModel.Klass.MultiEvent
 /- line-protocol glue for C15 (not part of any theorem) -/
 namespace Frappy.Drive.C15
 open Lean Frappy.Drive Frappy.Lifecycle Frappy.Spec.C15
@@ -45,6 +46,8 @@ def evJson : Ev → Json
   | .shutdownbegin => jstrs ["shutdownbegin"]
   | .stopPoll m => jstrs ["stopPoll", m]
   | .shutdown m => jstrs ["shutdown", m]
+  | .latepoll m => jstrs ["latepoll", m]
+  | .alive t => jstrs ["alive", t]
 
 def parseEv (j : Json) : R Ev := do
   let a ← (← arr j).mapM (·.getStr?)
@@ -64,6 +67,8 @@ def parseEv (j : Json) : R Ev := do
   | ["shutdownbegin"] => pure .shutdownbegin
   | ["stopPoll", m] => pure (.stopPoll m)
   | ["shutdown", m] => pure (.shutdown m)
+  | ["latepoll", m] => pure (.latepoll m)
+  | ["alive", t] => pure (.alive t)
   | _ => throw s!"bad event {j.compress}"
 
 def errJson (e : Err) : Json := jstrs [e.phase, e.mod, e.cls]
@@ -113,8 +118,23 @@ def admits (att : String → List String) (fuel : Nat) : Nat → Dfs → List St
         let k := s'.l.length
         target.take k == s'.l.reverse && sameMembers (target.drop k) (s'.visited ++ s'.unmarked))
 
+def parseLbl (j : Json) : R (String × Frappy.MultiEvent.Lbl) := do
+  match (← arr j) with
+  | [.str T, .str "fire", .str t] => pure (T, .fire t)
+  | [.str T, .str "register", .str t] => pure (T, .register t)
+  | [.str T, .str "lock"] => pure (T, .lock)
+  | [.str T, .str "unlock"] => pure (T, .unlock)
+  | [.str T, .str "evset"] => pure (T, .evset)
+  | [.str T, .str "evclear"] => pure (T, .evclear)
+  | [.str T, .str "wait", _] => pure (T, .wait)
+  | [.str T, .str "waitdone", .bool ok] => pure (T, .waitdone ok)
+  | _ => throw s!"bad label {j.compress}"
+
 def handle (j : Json) : R Json := do
   let k ← fldStr j "k"
+  if k == "me_follow" then
+    let tr ← (← fldArr j "trace").mapM parseLbl
+    return Json.mkObj [("stuck", jopt jnat (Frappy.MultiEvent.firstStuck {} 0 tr))]
   let cfg ← parseCfg (← fld j "cfg")
   match k with
   | "run" =>
